@@ -165,6 +165,13 @@ def run(v, tier, seed):
            "senders_disconnected_by_their_own_message": hs["senders_lost"], "max_backlog_of_the_non_reading_client": backlog, "event_loop_pumps": oq["pumps"] + hs["pumps"], "slowest_pump_us": slow, "watchdog_cpu_s": 5, "watchdog_wall_s": 120,
            "vacuity_guards": ["Deviations={F1} -> Terminates violated"],
            "samples": [{"kind": "OutQueue case", "case": cases[len(cases) // 3]}, {"kind": "OutQueue case", "case": cases[-1]}] + [{"kind": "hostile Message", "case": json.loads(l)} for l in open(hpath).readlines()[1000:1002]]}
+    # the session life cycle of ReflectServer (spec/ServerLifecycle): sessions added, connected, replaced, reconnected, ended from inside callbacks ...;
+    # a crash, hang, leaked or doubly detached session or a callback after detachment is a VIOLATION of this property, a different callback order is DRIFT
+    try:
+        import lifecycle
+        cov["session_life_cycle"] = lifecycle.stage(v, tier, seed)
+    except vlib.MachineryError:
+        raise
     assumptions = ["bounded time = every pump of the single-threaded event loop (ServerProcessLoop(0)) returns within a watchdog of 5 s CPU time and 120 s wall-clock time (normally well under a millisecond), for the enumerated Messages; a hang reachable only by a shape outside HostileSpace / OutQueue is not excluded",
                    "the model's loops terminate (TLC, weak fairness) for queues of at most 3 (thorough: 4) result Messages over the 8 shapes; longer queues are covered by the injection passes only (backlog up to the number reported)",
                    "queue contents after a command are compared with OutQueue as DRIFT: the documentation says only 'removes data from outgoing result messages'",
